@@ -91,7 +91,61 @@ pub fn check(shape: &Shape, value: &Value, tail: &[u8], full: bool, l: &mut Loca
     Ok(())
 }
 
+/// Text written through `collect_str` (a Display impl emitting pieces through write_str / write_char / nested
+/// formatting) decodes as the String that Display would have produced.
+pub fn check_display(pieces: &[String], wrap: u8, l: &mut Local) -> CaseResult {
+    let text: String = pieces.concat();
+    let (enc_shape, enc_value, dec_shape, dec_value) = match wrap % 4 {
+        0 => (Shape::DisplayStr, Value::Pieces(pieces.to_vec()), Shape::String, Value::Str(text.clone())),
+        1 => (
+            Shape::Tuple(vec![Shape::U8, Shape::DisplayStr, Shape::U16]),
+            Value::List(vec![Value::U(7), Value::Pieces(pieces.to_vec()), Value::U(300)]),
+            Shape::Tuple(vec![Shape::U8, Shape::Str, Shape::U16]),
+            Value::List(vec![Value::U(7), Value::Str(text.clone()), Value::U(300)]),
+        ),
+        2 => (
+            Shape::Seq(Box::new(Shape::DisplayStr)),
+            Value::List(vec![Value::Pieces(pieces.to_vec()), Value::Pieces(vec![]), Value::Pieces(pieces.to_vec())]),
+            Shape::Seq(Box::new(Shape::String)),
+            Value::List(vec![Value::Str(text.clone()), Value::Str(String::new()), Value::Str(text.clone())]),
+        ),
+        _ => (
+            Shape::Option(Box::new(Shape::DisplayStr)),
+            Value::Some(Box::new(Value::Pieces(pieces.to_vec()))),
+            Shape::Option(Box::new(Shape::String)),
+            Value::Some(Box::new(Value::Str(text.clone()))),
+        ),
+    };
+    let cj = || json!({"display_pieces": pieces, "wrap": wrap});
+    l.eval();
+    let bytes = crate::runner::no_panic(|| postcard::to_allocvec(&crate::dynshape::Typed(&enc_shape, &enc_value)))
+        .map_err(|p| fail("roundtrip", format!("to_allocvec panicked: {}", p), cj()))?
+        .map_err(|e| fail("roundtrip", format!("to_allocvec of a Display value failed: {:?}", e), cj()))?;
+    let decs = decode_all(&dec_shape, &bytes).map_err(|p| fail("roundtrip", format!("decoder panicked: {}", p), cj()))?;
+    for d in &decs {
+        match &d.result {
+            Ok(v) if *v == dec_value => {}
+            other => {
+                return Err(fail(
+                    "roundtrip",
+                    format!("{}: text {:?} written through collect_str decodes as {:?} (bytes {})", d.name, text, other, crate::runner::hex(&bytes)),
+                    cj(),
+                ))
+            }
+        }
+    }
+    if !text.is_ascii() {
+        l.nontrivial(&(&bytes, wrap % 4, "display"));
+    }
+    l.class("display-as-text");
+    Ok(())
+}
+
 pub fn replay(case: &Json, l: &mut Local) -> CaseResult {
+    if let Some(p) = case.get("display_pieces") {
+        let pieces: Vec<String> = serde_json::from_value(p.clone()).unwrap_or_default();
+        return check_display(&pieces, case["wrap"].as_u64().unwrap_or(0) as u8, l);
+    }
     if case.get("probe").is_some() {
         return check_human_readable_flag(l);
     }
@@ -138,7 +192,7 @@ pub fn run(ctx: &Ctx) {
     ctx.set_rule(
         "cases: exhaustive bool/u8/i8/u16/i16/char; proptest (shape,value) trees over all 29 serde kinds \
          (+usize/isize), deep chains, wide aggregates; each encoded by 9 encoder entry points and decoded \
-         (with 3 different tails) by from_bytes/take_from_bytes/from_io/from_eio. non-trivial = composite shape \
+         (with 3 different tails) by from_bytes/take_from_bytes/from_io/from_eio; text emitted through collect_str by a Display impl (write_str / write_char / nested formatting; ASCII, Latin-1, multi-byte) decoded as String. non-trivial = composite shape \
          or encoding >= 2 bytes; distinct = hash(shape, bytes) (enumerated scalars are distinct by construction)",
     );
     ctx.serial("human-readable-flag", check_human_readable_flag);
@@ -167,6 +221,23 @@ pub fn run(ctx: &Ctx) {
         n,
         || (gen::arb_typed(ShapeCfg::default(), ValCfg::default()), 0..3usize),
         |((s, v), t), l| check(s, v, TAILS[*t], true, l),
+    );
+
+    // (b2) Display -> collect_str -> String
+    ctx.par_proptest(
+        "display-as-text",
+        n / 4,
+        || {
+            let ch = prop_oneof![
+                4 => (0x20u32..0x7F).prop_map(|c| char::from_u32(c).unwrap()),
+                3 => (0x80u32..0x100).prop_map(|c| char::from_u32(c).unwrap()),
+                2 => (0x100u32..0x800).prop_map(|c| char::from_u32(c).unwrap()),
+                1 => Just('\0'),
+                2 => gen::arb_char(),
+            ];
+            (proptest::collection::vec(proptest::collection::vec(ch, 0..5).prop_map(|v| v.into_iter().collect::<String>()), 0..7), any::<u8>())
+        },
+        |(pieces, wrap), l| check_display(pieces, *wrap, l),
     );
 
     // (c) deep chains and wide aggregates
